@@ -9,11 +9,21 @@ package ledgerstore
 // writing+logging call / reverting call, already-committed transactions) is
 // pre-executed through every read-only entry point, 1..3 times in a row.
 // After every single call the dump of all four stores + merkle file, the
-// in-memory chain view, the event record of the transaction and the global
-// NeoVM gas table must be what they were; a block committed afterwards must
-// give the same ledger as on a twin that never pre-executed anything.
+// in-memory chain view, the event record of the transaction, the global
+// NeoVM gas table and the process-wide configuration the ledger reads
+// (config.DefConfig, the height-gate tables of the config package, the
+// package-level variables of ledgerstore and of the NeoVM service) must be
+// what they were; a block committed afterwards must give the same ledger as
+// on a twin that never pre-executed anything.
+//
+// The whole menu runs under every node configuration of c42modes: the default
+// one and a node started with --disable-event-log (EnableEventLog=false, the
+// one switch that decides whether event records are persisted at all).  The
+// fixture, the twins and the subjects of a configuration are all built and
+// run under that configuration.
 
 import (
+	"bytes"
 	"encoding/json"
 	"fmt"
 	"io"
@@ -194,9 +204,127 @@ func c42ontAddr(a ethcom.Address) common.Address {
 	return o
 }
 
+// ---------------------------------------------------------------- node configuration
+//
+// A node configuration is established before a ledger is opened (it is what the command line of the node sets) and
+// is never touched by the harness while that ledger lives, except to re-establish it after a reported violation.
+
+type c42mode struct {
+	name     string // "" = the default configuration
+	eventLog bool   // config.DefConfig.Common.EnableEventLog (command line: --disable-event-log)
+}
+
+var c42modes = []*c42mode{{"", true}, {"no-event-log", false}}
+
+func (m *c42mode) apply() { config.DefConfig.Common.EnableEventLog = m.eventLog }
+
+func (m *c42mode) tag() string {
+	if m.name == "" {
+		return "default"
+	}
+	return m.name
+}
+
+func c42flatten(prefix string, v interface{}, out *[]string) {
+	switch x := v.(type) {
+	case map[string]interface{}:
+		keys := make([]string, 0, len(x))
+		for k := range x {
+			keys = append(keys, k)
+		}
+		sort.Strings(keys)
+		for _, k := range keys {
+			c42flatten(prefix+"."+k, x[k], out)
+		}
+		if len(keys) == 0 {
+			*out = append(*out, prefix+"={}")
+		}
+	case []interface{}:
+		*out = append(*out, fmt.Sprintf("%s.len=%d", prefix, len(x)))
+		for i, e := range x {
+			c42flatten(fmt.Sprintf("%s[%d]", prefix, i), e, out)
+		}
+	default:
+		*out = append(*out, fmt.Sprintf("%s=%v", prefix, x))
+	}
+}
+
+// c42process renders the process-wide configuration a ledger reads, one "path=value" line per leaf:
+// config.DefConfig in full depth, the per-network height-gate tables of the config package, and the package-level
+// variables of ledgerstore and of the NeoVM service (neovm.GAS_TABLE is compared separately, c42gasTable).
+func c42process() []string {
+	var out []string
+	put := func(k string, v interface{}) { out = append(out, fmt.Sprintf("%s=%v", k, v)) }
+	if config.DefConfig == nil {
+		put("config.DefConfig", "nil")
+	} else if j, err := json.Marshal(config.DefConfig); err != nil {
+		put("config.DefConfig", "!"+err.Error())
+	} else {
+		var v interface{}
+		dec := json.NewDecoder(bytes.NewReader(j))
+		dec.UseNumber()
+		if err := dec.Decode(&v); err != nil {
+			put("config.DefConfig", "!"+err.Error())
+		}
+		c42flatten("config.DefConfig", v, &out)
+	}
+	put("config.DefConfig(address)", fmt.Sprintf("%p", config.DefConfig))
+	put("config.Version", config.Version)
+	put("config.NETWORK_MAGIC", config.NETWORK_MAGIC) // (fmt prints maps in key order)
+	put("config.NETWORK_NAME", config.NETWORK_NAME)
+	put("config.Eip155ChainID", config.Eip155ChainID)
+	put("config.STATE_HASH_CHECK_HEIGHT", config.STATE_HASH_CHECK_HEIGHT)
+	put("config.OPCODE_HASKEY_ENABLE_HEIGHT", config.OPCODE_HASKEY_ENABLE_HEIGHT)
+	put("config.GAS_ROUND_TUNE_HEIGHT", config.GAS_ROUND_TUNE_HEIGHT)
+	// package ledgerstore
+	put("ledgerstore.UseNumber", UseNumber)
+	put("ledgerstore.DBDirEvent", DBDirEvent)
+	put("ledgerstore.DBDirBlock", DBDirBlock)
+	put("ledgerstore.DBDirState", DBDirState)
+	put("ledgerstore.MerkleTreeStorePath", MerkleTreeStorePath)
+	put("ledgerstore.BOOKKEEPER", fmt.Sprintf("%x", BOOKKEEPER))
+	put("ledgerstore.bloomBitsPrefix", fmt.Sprintf("%x", bloomBitsPrefix))
+	// package smartcontract/service/neovm: the gas prices and limits held in variables, the interop service tables
+	for _, g := range []struct {
+		n string
+		v uint64
+	}{
+		{"MIN_TRANSACTION_GAS", neovm.MIN_TRANSACTION_GAS}, {"BLOCKCHAIN_GETHEADER_GAS", neovm.BLOCKCHAIN_GETHEADER_GAS},
+		{"BLOCKCHAIN_GETBLOCK_GAS", neovm.BLOCKCHAIN_GETBLOCK_GAS}, {"BLOCKCHAIN_GETTRANSACTION_GAS", neovm.BLOCKCHAIN_GETTRANSACTION_GAS},
+		{"BLOCKCHAIN_GETCONTRACT_GAS", neovm.BLOCKCHAIN_GETCONTRACT_GAS}, {"CONTRACT_CREATE_GAS", neovm.CONTRACT_CREATE_GAS},
+		{"CONTRACT_MIGRATE_GAS", neovm.CONTRACT_MIGRATE_GAS}, {"UINT_DEPLOY_CODE_LEN_GAS", neovm.UINT_DEPLOY_CODE_LEN_GAS},
+		{"UINT_INVOKE_CODE_LEN_GAS", neovm.UINT_INVOKE_CODE_LEN_GAS}, {"NATIVE_INVOKE_GAS", neovm.NATIVE_INVOKE_GAS},
+		{"STORAGE_GET_GAS", neovm.STORAGE_GET_GAS}, {"STORAGE_PUT_GAS", neovm.STORAGE_PUT_GAS},
+		{"STORAGE_DELETE_GAS", neovm.STORAGE_DELETE_GAS}, {"RUNTIME_CHECKWITNESS_GAS", neovm.RUNTIME_CHECKWITNESS_GAS},
+		{"RUNTIME_VERIFYMUTISIG_GAS", neovm.RUNTIME_VERIFYMUTISIG_GAS}, {"RUNTIME_ADDRESSTOBASE58_GAS", neovm.RUNTIME_ADDRESSTOBASE58_GAS},
+		{"RUNTIME_BASE58TOADDRESS_GAS", neovm.RUNTIME_BASE58TOADDRESS_GAS}, {"APPCALL_GAS", neovm.APPCALL_GAS},
+		{"TAILCALL_GAS", neovm.TAILCALL_GAS}, {"SHA1_GAS", neovm.SHA1_GAS}, {"SHA256_GAS", neovm.SHA256_GAS},
+		{"HASH160_GAS", neovm.HASH160_GAS}, {"HASH256_GAS", neovm.HASH256_GAS}, {"OPCODE_GAS", neovm.OPCODE_GAS},
+	} {
+		put("neovm."+g.n, g.v)
+	}
+	put("neovm.PER_UNIT_CODE_LEN", neovm.PER_UNIT_CODE_LEN)
+	put("neovm.METHOD_LENGTH_LIMIT", neovm.METHOD_LENGTH_LIMIT)
+	put("neovm.DUPLICATE_STACK_SIZE", neovm.DUPLICATE_STACK_SIZE)
+	put("neovm.VM_STEP_LIMIT", neovm.VM_STEP_LIMIT)
+	for _, m := range []struct {
+		n string
+		m map[string]neovm.ServiceHandler
+	}{{"ServiceMap", neovm.ServiceMap}, {"ServiceMapDeprecated", neovm.ServiceMapDeprecated}} {
+		var ks []string
+		for k, h := range m.m {
+			ks = append(ks, fmt.Sprintf("%s@%p", k, h))
+		}
+		sort.Strings(ks)
+		put("neovm."+m.n, strings.Join(ks, ","))
+	}
+	return out
+}
+
 // ---------------------------------------------------------------- fixture
 
 type c42fix struct {
+	mode                 *c42mode
 	tmpl                 string
 	h                    uint32
 	w, d, m, mnew        common.Address // NeoVM contracts (writer/deleter, destroyer, migrator, migration target)
@@ -253,8 +381,9 @@ func c42evmTx(key int, nonce uint64, to *ethcom.Address, value int64, data []byt
 	return vEvmTx(k, nonce, to, big.NewInt(value), 300000, c42price, data)
 }
 
-func c42build(logf func(string, ...interface{})) *c42fix {
-	f := &c42fix{setupStates: map[string]byte{}}
+func c42build(mode *c42mode, logf func(string, ...interface{})) *c42fix {
+	mode.apply()
+	f := &c42fix{mode: mode, setupStates: map[string]byte{}}
 	a0, a1 := vAcct(0), vAcct(1)
 	_, e0 := vEthKey(0)
 	_, e1 := vEthKey(1)
@@ -285,6 +414,14 @@ func c42build(logf func(string, ...interface{})) *c42fix {
 		c42must(err, fmt.Sprintf("setup block %d", i+1))
 		for j, tx := range txs {
 			n, err := l.ls.GetEventNotifyByTx(tx.Hash())
+			if !mode.eventLog {
+				// a node without event log keeps no execute-notify record (the success of the setup is
+				// established through the storage checks below)
+				if err == nil {
+					panic(fmt.Sprintf("c42 fixture[%s]: setup block %d tx %d has an event record although the event log is disabled", mode.tag(), i+1, j))
+				}
+				continue
+			}
 			c42must(err, fmt.Sprintf("setup block %d tx %d event", i+1, j))
 			f.setupStates[fmt.Sprintf("b%d.tx%d", i+1, j)] = n.State
 			if n.State != event.CONTRACT_STATE_SUCCESS {
@@ -302,7 +439,10 @@ func c42build(logf func(string, ...interface{})) *c42fix {
 	if v, err := l.ls.GetEthState(f.evmC, ethcom.Hash{}); err != nil || new(big.Int).SetBytes(v).Int64() != 1 {
 		panic(fmt.Sprintf("c42 fixture: evm slot0=%x err=%v", v, err))
 	}
-	logf("setup: ong(e0)=%v ong(e1)=%v ong(a0)=%v", l.Ong(c42ontAddr(e0)), l.Ong(c42ontAddr(e1)), l.Ong(a0.Address))
+	if l.Ong(c42ontAddr(e1)).Sign() <= 0 || l.Ont(a1.Address).Sign() <= 0 || l.Ong(a1.Address).Sign() <= 0 {
+		panic("c42 fixture: the funding transfers of setup block 1 had no effect")
+	}
+	logf("setup[%s]: ong(e0)=%v ong(e1)=%v ong(a0)=%v", mode.tag(), l.Ong(c42ontAddr(e0)), l.Ong(c42ontAddr(e1)), l.Ong(a0.Address))
 	f.h = l.ls.GetCurrentBlockHeight()
 	l.Close()
 	f.fixedFollow = []*types.Transaction{
@@ -316,6 +456,7 @@ func c42build(logf func(string, ...interface{})) *c42fix {
 }
 
 func (f *c42fix) open() *vLedger {
+	f.mode.apply() // (the node is started with its configuration)
 	d := c42tmp("s")
 	os.RemoveAll(d)
 	c42copyDir(f.tmpl, d)
@@ -627,6 +768,7 @@ func c42viewDiff(a, b []string) string {
 // ---------------------------------------------------------------- the check
 
 type c42case struct {
+	Config  string `json:"config,omitempty"` // node configuration (c42modes), "" = default
 	Tx      string `json:"tx"`
 	Entry   string `json:"entry"`
 	Reps    int    `json:"reps"`
@@ -652,12 +794,32 @@ func c42makeTwin(f *c42fix, it *c42item) *c42twin {
 	}
 	txs = append(txs, f.fixedFollow...)
 	b := l.MakeBlock(txs)
-	c42must(l.AddBlock(b), "twin follow-up block")
+	xres, err := l.ls.ExecuteBlock(b)
+	c42must(err, "twin follow-up block (execute)")
+	c42must(l.ls.AddBlock(b, nil, xres.MerkleRoot), "twin follow-up block")
 	root, err := l.ls.GetStateMerkleRoot(b.Header.Height)
 	c42must(err, "twin root")
 	// non-vacuity: committed for real, the attacking items do have the effect the pre-execution must not have
+	if !f.mode.eventLog {
+		// non-vacuity of the configuration: the reference node persisted no execute-notify record for the block
+		for _, tx := range txs {
+			if n, err := l.ls.GetEventNotifyByTx(tx.Hash()); err == nil {
+				panic(fmt.Sprintf("c42 fixture[%s]: the twin holds an event record (state %d) of a follow-up transaction although the event log is disabled", f.mode.tag(), n.State))
+			}
+		}
+	}
 	if it != nil && it.follow {
 		n, err := l.ls.GetEventNotifyByTx(it.tx.Hash())
+		if !f.mode.eventLog {
+			// no record to read the execution state from: the state of the transaction is taken from the
+			// execution of the block itself
+			n, err = nil, fmt.Errorf("transaction not executed in the twin block")
+			for _, x := range xres.Notify {
+				if x.TxHash == it.tx.Hash() {
+					n, err = x, nil
+				}
+			}
+		}
 		c42must(err, "twin event of "+it.name)
 		bad := ""
 		switch it.name {
@@ -698,12 +860,49 @@ func c42makeTwin(f *c42fix, it *c42item) *c42twin {
 	return &c42twin{block: b, dump: l.Dump(), root: root}
 }
 
+// one node configuration with everything built under it
+type c42world struct {
+	mode    *c42mode
+	f       *c42fix
+	menu    []*c42item
+	entries []*c42entry
+	probes  []common.Uint256
+	twins   map[string]*c42twin
+}
+
+func (w *c42world) twinOf(it *c42item) *c42twin {
+	k := it.name
+	if !it.follow {
+		k = ""
+	}
+	if w.twins[k] == nil {
+		w.twins[k] = c42makeTwin(w.f, it)
+	}
+	return w.twins[k]
+}
+
+func (w *c42world) find(tx, entry string) (*c42item, *c42entry) {
+	var it *c42item
+	var en *c42entry
+	for _, x := range w.menu {
+		if x.name == tx {
+			it = x
+		}
+	}
+	for _, x := range w.entries {
+		if x.name == entry {
+			en = x
+		}
+	}
+	return it, en
+}
+
 func TestVerif_C42(t *testing.T) {
 	r := vh.Start(t, "C42", "preexec")
 	defer r.Finish()
-	r.Rule("cases = transaction of the menu {native transfer/approve (valid, foreign witness), NeoVM invoke that writes / deletes storage / destroys / migrates / faults / creates a contract and calls it (every follow-up block probes that never-deployed contract), deploy (new, existing), EIP-155 transfer / create / SSTORE+LOG call / reverting call / wrong nonce, already committed NeoVM and EVM transactions} x read-only entry point x issued 1..3 times in a row on one ledger; evaluations = pre-execution calls, each followed by the full comparison; outcome class = tx kind : entry point : result")
-	r.Bound("ledger of 3 blocks (3 NeoVM contracts and 1 EVM contract with storage, funded native and EVM accounts); 18 transactions; 10 entry-point forms (6 general, 4 EIP-155 only); repetitions 1..3; then {no restart, restart} (quick tier: alternating, thorough: both) and one follow-up block per case compared with a twin ledger; plus one ledger that sees every call of the run in sequence; thorough tier additionally every ordered pair (a,b) of menu transactions: a, b, then the batch [a,b] on one ledger")
-	r.Assume("block time / context passed by the RPC layer is irrelevant to persistence; WASM contracts are outside the menu (the JIT is a stub)")
+	r.Rule("cases = node configuration {default, event log disabled} x transaction of the menu {native transfer/approve (valid, foreign witness), NeoVM invoke that writes / deletes storage / destroys / migrates / faults / creates a contract and calls it (every follow-up block probes that never-deployed contract), deploy (new, existing), EIP-155 transfer / create / SSTORE+LOG call / reverting call / wrong nonce, already committed NeoVM and EVM transactions} x read-only entry point x issued 1..3 times in a row on one ledger; evaluations = pre-execution calls, each followed by the full comparison (stores, queries, gas table, process-wide configuration); outcome class = [configuration/] tx kind : entry point : result")
+	r.Bound("2 node configurations (EnableEventLog true/false; fixture, twins and subjects built and run under the configuration); ledger of 3 blocks (3 NeoVM contracts and 1 EVM contract with storage, funded native and EVM accounts); 18 transactions; 10 entry-point forms (6 general, 4 EIP-155 only); repetitions 1..3; then {no restart, restart} (quick tier: alternating, thorough: both) and one follow-up block per case compared with a twin ledger; plus per configuration one ledger that sees every call of the run in sequence; thorough tier additionally every ordered pair (a,b) of menu transactions: a, b, then the batch [a,b] on one ledger")
+	r.Assume("block time / context passed by the RPC layer is irrelevant to persistence; WASM contracts are outside the menu (the JIT is a stub); of the node configuration only the event-log switch is varied")
 
 	var rc c42case
 	replay := r.ReplayCase(&rc) && rc.Tx != ""
@@ -713,28 +912,57 @@ func TestVerif_C42(t *testing.T) {
 			os.RemoveAll(c42tmpBase)
 		}
 	}()
-	f := c42build(t.Logf)
-	menu := c42menu(f)
-	entries := c42entries(f, menu)
-	var probes []common.Uint256
-	for _, it := range menu {
-		probes = append(probes, it.tx.Hash())
-	}
-	twins := map[string]*c42twin{}
-	twinOf := func(it *c42item) *c42twin {
-		k := it.name
-		if !it.follow {
-			k = ""
+	startMode := config.DefConfig.Common.EnableEventLog
+	defer func() { config.DefConfig.Common.EnableEventLog = startMode }()
+
+	// all fixtures and all twins of all configurations are committed BEFORE the first pre-execution of this
+	// process: whatever a pre-execution leaves behind in process-wide state (caches, tables, switches) must not
+	// be able to reach the reference ledgers
+	var worlds []*c42world
+	for _, mode := range c42modes {
+		if replay && rc.Config != mode.name {
+			continue
 		}
-		if twins[k] == nil {
-			twins[k] = c42makeTwin(f, it)
+		w := &c42world{mode: mode, twins: map[string]*c42twin{}}
+		w.f = c42build(mode, t.Logf)
+		w.menu = c42menu(w.f)
+		w.entries = c42entries(w.f, w.menu)
+		for _, it := range w.menu {
+			w.probes = append(w.probes, it.tx.Hash())
 		}
-		return twins[k]
+		for _, it := range w.menu {
+			w.twinOf(it)
+		}
+		worlds = append(worlds, w)
 	}
-	// all twins are committed BEFORE the first pre-execution of this process: whatever a pre-execution leaves
-	// behind in process-wide state (caches, tables) must not be able to reach the reference ledgers
-	for _, it := range menu {
-		twinOf(it)
+	r.Need(len(worlds) > 0, "replay: unknown node configuration %q", rc.Config)
+
+	idx := 0
+	sampled := 0
+	for _, w := range worlds {
+		c42runWorld(r, w, replay, &rc, &idx, &sampled)
+	}
+	if r.R.NShards == 1 && !replay {
+		r.NeedClass("neovm:PreExecuteContract:success")
+		r.NeedClass("evm:PreExecuteContract:success")
+		r.NeedClass("evm:PreExecuteEip155Tx:success")
+		r.NeedClass("no-event-log/neovm:PreExecuteContract:success")
+		r.NeedClass("no-event-log/neovm:PreExecuteContract:error")
+		r.NeedClass("no-event-log/native:PreExecuteContract:error")
+		r.NeedClass("no-event-log/evm:PreExecuteEip155Tx:success")
+	}
+	r.Need(replay || r.R.Evaluations > 0 || r.R.CapHit, "no case evaluated")
+}
+
+func c42runWorld(r *vh.Run, w *c42world, replay bool, rcp *c42case, idxp *int, sampledp *int) {
+	rc := *rcp
+	f, menu, entries, probes, mode := w.f, w.menu, w.entries, w.probes, w.mode
+	twinOf := w.twinOf
+	find := w.find
+	mode.apply()
+	cprefix := "" // outcome-class prefix
+	if mode.name != "" {
+		cprefix = mode.name + "/"
 	}
 
 	// observe compares the ledger with its state before the call
@@ -742,9 +970,14 @@ func TestVerif_C42(t *testing.T) {
 		dump []vKV
 		view []string
 		gas  string
+		proc []string
 	}
-	take := func(l *vLedger) *snap { return &snap{l.Dump(), c42view(l, f, probes), c42gasTable()} }
+	take := func(l *vLedger) *snap { return &snap{l.Dump(), c42view(l, f, probes), c42gasTable(), c42process()} }
+	// procOnly (out): the stores and queries are untouched, only the process-wide configuration moved — the caller
+	// then still commits the follow-up block (in the process as the call left it) to see what that does to the ledger
+	var procOnly bool
 	check := func(l *vLedger, before *snap, cs c42case, it *c42item, en *c42entry, rep int) bool {
+		procOnly = false
 		after := take(l)
 		key := c42key(it, en)
 		if cs.History != nil {
@@ -762,27 +995,17 @@ func TestVerif_C42(t *testing.T) {
 			r.Violationf(key+":global-gas-table-changed", cs, "%v call %d: neovm.GAS_TABLE changed: %s -> %s", cs, rep, c42short(before.gas, after.gas), c42short(after.gas, before.gas))
 			ok = false
 		}
+		if d := c42viewDiff(before.proc, after.proc); d != "" {
+			// the process-wide configuration decides what later blocks persist (event records, gas charged, height
+			// gates): a pre-execution that returns with it changed has changed what the node is going to write
+			r.Violationf(key+":"+c42procKey(d), cs, "%v call %d: the process-wide configuration differs after the pre-execution returned: %s", cs, rep, d)
+			procOnly = ok
+			ok = false
+		}
 		return ok
 	}
 
-	idx := 0
-	sampled := 0
-	find := func(tx, entry string) (*c42item, *c42entry) {
-		var it *c42item
-		var en *c42entry
-		for _, x := range menu {
-			if x.name == tx {
-				it = x
-			}
-		}
-		for _, x := range entries {
-			if x.name == entry {
-				en = x
-			}
-		}
-		return it, en
-	}
-	// one ledger that sees every pre-execution of this shard in sequence
+	// one ledger that sees every pre-execution of this shard (under this configuration) in sequence
 	long := f.open()
 	defer func() { c42drop(long) }()
 	longStart := take(long)
@@ -796,13 +1019,14 @@ func TestVerif_C42(t *testing.T) {
 		}
 		r.Eval(1)
 		if longFailed[c42key(it, en)] {
+			mode.apply()
 			return
 		}
-		cs := c42case{Tx: it.name, Entry: en.name, Reps: 1, History: append([]string(nil), history...)}
+		cs := c42case{Config: mode.name, Tx: it.name, Entry: en.name, Reps: 1, History: append([]string(nil), history...)}
 		if !check(long, lb, cs, it, en, len(history)) {
 			longFailed[c42key(it, en)] = true
 			c42drop(long)
-			long = f.open()
+			long = f.open() // (also re-establishes the node configuration)
 			longStart = take(long)
 			history = nil
 		}
@@ -821,12 +1045,13 @@ func TestVerif_C42(t *testing.T) {
 			if en.evm && !it.tx.IsEipTx() {
 				continue
 			}
-			idx++
+			*idxp++
+			idx := *idxp
 			for _, restart := range []bool{false, true} {
 				if r.Quick() && restart != (idx%2 == 0) {
 					continue // quick tier: one of the two variants per case, alternating
 				}
-				cs := c42case{Tx: it.name, Entry: en.name, Reps: 3, Restart: restart}
+				cs := c42case{Config: mode.name, Tx: it.name, Entry: en.name, Reps: 3, Restart: restart}
 				if replay {
 					if rc.Tx != cs.Tx || rc.Entry != cs.Entry || rc.Restart != cs.Restart {
 						continue
@@ -846,20 +1071,23 @@ func TestVerif_C42(t *testing.T) {
 					if pn := vh.Catch(func() { res = en.call(l, it) }); pn != "" {
 						r.Violationf(c42key(it, en)+":panic", cs, "%v call %d panicked: %s", cs, rep, pn)
 						clean = false
+						mode.apply()
 						break
 					}
 					r.Eval(1)
-					r.Class(it.kind + ":" + en.name + ":" + res)
-					if rep == 1 && sampled < 2 {
-						sampled++
-						r.Sample(map[string]interface{}{"tx": it.name, "entry": en.name, "result": res})
+					r.Class(cprefix + it.kind + ":" + en.name + ":" + res)
+					if rep == 1 && *sampledp < 2 {
+						*sampledp++
+						r.Sample(map[string]interface{}{"config": mode.tag(), "tx": it.name, "entry": en.name, "result": res})
 					}
 					clean = check(l, before, cs, it, en, rep)
-					if !replay {
+					if !replay && clean {
 						longCall(it, en)
 					}
 				}
+				follow := procOnly && !clean
 				if clean && restart {
+					mode.apply() // (a restarted node has the configuration of its command line)
 					if err := l.Reopen(); err != nil {
 						r.Violationf(c42key(it, en)+":restart-fails", cs, "%v: the ledger does not reopen after the pre-executions: %v", cs, err)
 						clean = false
@@ -871,7 +1099,7 @@ func TestVerif_C42(t *testing.T) {
 						clean = false
 					}
 				}
-				if clean {
+				if clean || follow {
 					tw := twinOf(it)
 					err := l.AddBlock(c42cloneBlock(tw.block))
 					root, rerr := l.ls.GetStateMerkleRoot(tw.block.Header.Height)
@@ -904,8 +1132,9 @@ func TestVerif_C42(t *testing.T) {
 				if a == b {
 					continue
 				}
-				idx++
-				cs := c42case{Tx: a.name, Entry: "pair", Then: b.name, Reps: 1}
+				*idxp++
+				idx := *idxp
+				cs := c42case{Config: mode.name, Tx: a.name, Entry: "pair", Then: b.name, Reps: 1}
 				if replay {
 					if rc.Tx != cs.Tx || rc.Then != cs.Then || rc.Entry != "pair" {
 						continue
@@ -917,7 +1146,7 @@ func TestVerif_C42(t *testing.T) {
 					break
 				}
 				l := f.open()
-				clean := true
+				clean, follow := true, false
 				step := func(it *c42item, en *c42entry, n int, call func() string) {
 					if !clean {
 						return
@@ -927,11 +1156,13 @@ func TestVerif_C42(t *testing.T) {
 					if pn := vh.Catch(func() { res = call() }); pn != "" {
 						r.Violationf(c42key(it, en)+":panic", cs, "%v step %d panicked: %s", cs, n, pn)
 						clean = false
+						mode.apply()
 						return
 					}
 					r.Eval(1)
-					r.Class("pair:" + en.name + ":" + res)
+					r.Class(cprefix + "pair:" + en.name + ":" + res)
 					clean = check(l, before, cs, it, en, n)
+					follow = procOnly && !clean
 				}
 				step(a, single, 1, func() string { return single.call(l, a) })
 				step(b, single, 2, func() string { return single.call(l, b) })
@@ -946,7 +1177,7 @@ func TestVerif_C42(t *testing.T) {
 					}
 					return fmt.Sprintf("batch-of-%d", len(rs))
 				})
-				if clean {
+				if clean || follow {
 					tw := twinOf(a)
 					err := l.AddBlock(c42cloneBlock(tw.block))
 					if d := vDiff(l.Dump(), tw.dump); err != nil || len(d) != 0 {
@@ -959,22 +1190,30 @@ func TestVerif_C42(t *testing.T) {
 	}
 	// the long-lived ledger: nothing accumulated, and it still commits like the twin
 	if !replay {
+		mode.apply() // (no-op unless the last case reported a changed configuration)
 		end := take(long)
+		seq := "sequence:all-calls"
+		if mode.name != "" {
+			seq = "sequence(" + mode.name + "):all-calls"
+		}
 		if d := vDiff(longStart.dump, end.dump); len(d) != 0 {
-			r.Violationf("sequence:all-calls:store-changed", c42case{History: history}, "after all pre-executions of the run the stores differ:%s", vHexKeys(d))
+			r.Violationf(seq+":store-changed", c42case{Config: mode.name, History: history}, "after all pre-executions of the run the stores differ:%s", vHexKeys(d))
 		}
 		tw := twinOf(menu[len(menu)-1])
 		err := long.AddBlock(c42cloneBlock(tw.block))
 		if d := vDiff(long.Dump(), tw.dump); err != nil || len(d) != 0 {
-			r.Violationf("sequence:all-calls:later-block-differs", c42case{History: history}, "block committed after all pre-executions: err=%v, stores differ from the twin:%s", err, vHexKeys(d))
+			r.Violationf(seq+":later-block-differs", c42case{Config: mode.name, History: history}, "block committed after all pre-executions: err=%v, stores differ from the twin:%s", err, vHexKeys(d))
 		}
 	}
-	if r.R.NShards == 1 && !replay {
-		r.NeedClass("neovm:PreExecuteContract:success")
-		r.NeedClass("evm:PreExecuteContract:success")
-		r.NeedClass("evm:PreExecuteEip155Tx:success")
+}
+
+// c42procKey: violation class of a changed process-wide configuration = the variable (path) that changed
+func c42procKey(diff string) string {
+	p := diff
+	if i := strings.IndexByte(p, '='); i >= 0 {
+		p = p[:i]
 	}
-	r.Need(replay || r.R.Evaluations > 0 || r.R.CapHit, "no case evaluated")
+	return "process-config-changed:" + p
 }
 
 // c42key: violation class = entry function : VM the transaction runs on
